@@ -304,7 +304,8 @@ func (d *TTMLInDuration) UnmarshalText(i []byte) (err error) {
 	}
 
 	// Extract clock time frames
-	if indexes := ttmlRegexpClockTimeFrames.FindStringIndex(text); indexes != nil {
+	// (the last field is a number of frames only when it comes after the hours, minutes and seconds fields)
+	if indexes := ttmlRegexpClockTimeFrames.FindStringIndex(text); indexes != nil && strings.Count(text, ":") > 2 {
 		// Parse frames
 		var s = text[indexes[0]+1 : indexes[1]]
 		if d.frames, err = strconv.Atoi(s); err != nil {
